@@ -8,7 +8,8 @@ and the option values are whole seconds exactly as in the Python code.
 
 The model follows the code *after* the repairs
 `de52307` (negative depth), `7e99581` (explicit start truncated to a whole
-second) and `abb50c2` (default minimumUpdatePeriod ≥ 1 s).  `calcWith false`
+second), `abb50c2` (default minimumUpdatePeriod ≥ 1 s) and `f60cf82` (exact
+publishTime quantisation).  `calcWith false`
 is the code before those commits; it is used only for the recorded witnesses in
 `Props/C08.lean`.
 
@@ -24,7 +25,8 @@ microseconds from every whole second):
 * `elapsedTime.total_seconds() == 0`            ↦ `e = 0`
 * `elapsedTime.total_seconds() < depth`         ↦ `e < depth * 10⁶`
 * `int(elapsedTime.total_seconds())`            ↦ `Int.tdiv e 10⁶`
-* `elapsedTime.total_seconds() // mup`          ↦ `e / (mup * 10⁶)` (floor)
+* `(elapsedTime // timedelta(microseconds=1)) // (mup * 1000000)` ↦ `e / (mup * 10⁶)` (floor; exact integer
+  arithmetic in the code since `f60cf82`, no float)
 * `round(2.0 * segment_duration / timescale)`   ↦ half-to-even rounding of the
   exact quotient (exact for `segment_duration < 2⁵¹`).
 
